@@ -176,7 +176,8 @@ PROPS = {
         'steps': [{'script': 'corr_plan.py', 'timeout': 1500, 'timeout_thorough': 6000},
                   {'script': 'corr_graph.py', 'timeout': 1500, 'timeout_thorough': 6000},
                   {'script': 'oracle_static.py', 'timeout': 1500, 'timeout_thorough': 6000}],
-        'required_theorems': ['C03_tensor_without_instruction_is_returned_unchanged', 'C03_mode_table', 'C03_policy_configs_have_a_mode',
+        'required_theorems': ['C03_tensor_without_instruction_is_returned_unchanged',
+                              'C03_quantized_in_place_tensor_gets_selected_dtype', 'C03_mode_table', 'C03_policy_configs_have_a_mode',
                               'C03_unselected_op_untouched', 'C03_nonfloat_operand_never_quantized',
                               'C03_quantize_tensor_effect',
                               'C03_inserted_op_converts_between_neighbour_dtypes',
@@ -184,7 +185,7 @@ PROPS = {
         'rule': GRAPH_RULE + STATIC_RULE,
         'trusted_base': COMMON_TB + GRAPH_TB,
         'assumptions': GRAPH_ASSUME + [
-            'theorems are per layer (decision function, plan of unselected ops / ignored operands, one performer step); the composition through horizontal grouping and the three vertical rewrites is validated by correspondences P, I, T/E and by the per-operand dtype oracle on every returned model, not proved',
+            'theorems per layer (decision function, plan of unselected ops / ignored operands, one performer step) PLUS two whole-run theorems of the performer (a tensor no instruction names is returned unchanged; a tensor whose list starts with QUANTIZE_TENSOR/ADD_DEQUANTIZE(p) is returned with p\'s dtype and annotation); the composition through horizontal grouping and the three vertical rewrites of the instruction generator is validated by correspondences P, I, T/E and by the per-operand dtype oracle on every returned model, not proved',
             'the dtype oracle derives the expected dtype of every operand from the recipe resolution (RecipeManager + quantization-side scope) only'],
     },
     'C04': {
